@@ -6,7 +6,7 @@ from sim.steps import LineBudget, BudgetExceeded
 from sim.values import key
 
 ID = "C04"
-CASES = {"quick": 2500, "thorough": 40000}
+CASES = {"quick": 8000, "thorough": 40000}
 RULE = ("seeded epsilon-NFAs (epsilon cycles, dead states, several start states) x bounds n in 0..5 and n=None on "
         "finite languages x value-hash schedule x PYTHONHASHSEED; enumeration consumed whole, stepwise with "
         "interleaved queries, and abandoned; non-trivial = non-empty language and >=3 states; distinct = "
